@@ -131,7 +131,11 @@ Definition act (id : N) (src : pystr) (loc : nat) (r : pr) : action_result :=
                | Some t => ARVal (PVFloat t)
                | None => ARRaise (EStuck 310)          (* outside the modelled float window *)
                end
-             else if forallb is_digit s && negb (is_nil s) then ARVal (PVInt (Z.of_N (N_of_digits s)))
+             else if forallb is_digit s && negb (is_nil s) then
+               (* CPython >= 3.11: int(str) refuses more than 4300 digits (sys.int_info.default_max_str_digits):
+                  the ValueError escapes from the parse action — defect D37 *)
+               if N.ltb 4300 (N.of_nat (length s)) then ARRaise EValueError
+               else ARVal (PVInt (Z.of_N (N_of_digits s)))
              else ARRaise EValueError
          | Some _ => ARRaise (EStuck 311)
          | None => ARParseFail
